@@ -1050,11 +1050,12 @@ def suite_trace(tier, seed):
     import subprocess, suite_trace as st
     try:
         d = lib.build_suite()
+        d11 = lib.build_suite('c++11')        # the C++11 configuration of the library (own macro layer, detail:: replacements of std facilities)
         d20 = lib.build_suite('c++20') if tier == 'thorough' else None
     except lib.BuildError as e:
         return dict(error=str(e))
     spec_h = lib.sha_files([os.path.join(lib.SPEC, f) for f in ('Generic.tla', 'TraceGeneric.tla', 'TraceGeneric.cfg')] + [os.path.join(lib.HARNESS, 'suite_trace.py')])
-    cache = os.path.join(d, 'verdict-%s-%s.json' % (tier, spec_h))
+    cache = os.path.join(d, 'verdict-v3-%s-%s.json' % (tier, spec_h))        # v3: C++14 + C++11 (+ C++20 thorough) builds of self_test, thread_terror prefix
     with lib.Lock(os.path.join(d, 'run.lock')):
         if os.path.exists(cache):
             return json.load(open(cache))
@@ -1065,6 +1066,8 @@ def suite_trace(tier, seed):
             runs = []
             if os.path.exists(os.path.join(d, 'self_test_g')):
                 runs.append(('self_test', [os.path.join(d, 'self_test_g')], None))
+            if os.path.exists(os.path.join(d11, 'self_test_g')):
+                runs.append(('self_test_cxx11', [os.path.join(d11, 'self_test_g')], None))
             if d20 and os.path.exists(os.path.join(d20, 'self_test_g')):
                 runs.append(('self_test_cxx20', [os.path.join(d20, 'self_test_g')], None))     # C++20 build: adds test_co_mock.cpp (mocked coroutines)
             if os.path.exists(os.path.join(d, 'thread_terror_g')):
